@@ -748,7 +748,8 @@ func (e *c11shEnv) finish(rng *Rng, name string) {
 		e.r.Count("cps.launch-in-shootdown")
 	}
 	const known = "C11.cps.launch-in-shootdown"
-	knownText := "a LaunchKernelReq and a ShootDownCommand were pending at the same time: processLaunchKernelReq does not wait for shootDownInProcess, the acknowledgements of its kernel-start L1 invalidation are counted in numCacheACK and end the shootdown's cache phase before it began"
+	// regression oracle of the REPAIRED finding C11-cp-launch-in-shootdown (no entry in known_findings any more)
+	knownText := "a LaunchKernelReq and a ShootDownCommand were pending at the same time: processLaunchKernelReq must wait for shootDownInProcess (repair of C11-cp-launch-in-shootdown), otherwise the acknowledgements of its kernel-start L1 invalidation are counted in numCacheACK and end the shootdown's cache phase before it began"
 	if e.fault != "" {
 		e.r.Count("cps.fault." + e.fault)
 		switch {
@@ -963,12 +964,14 @@ func runC11Share(r *Run, rng *Rng, replay string) {
 		[]string{"k", "f", "h", "t", "q", "xc 9", "a 1", "t", "q", "a 0", "t", "q", "xr 9", "t", "q", "t", "q"})
 	// a second kernel while the first is running starts without invalidation
 	c11shFixed(r, rng, g, "second kernel while the first runs", []string{"k", "t", "xc 9", "a 0", "a 0", "t", "t", "q", "k", "t", "q", "kd 0", "t", "q"})
-	// OPEN finding C11-cp-launch-in-shootdown: a launch request taken during the shootdown's CU phase
-	// (witness of cps_no_fault_full_refuted): TLB flush and ShootdownCompleteRsp go out before the CUs,
-	// translators and caches were flushed; the shootdown's reset acknowledgements end in a nil dereference
-	c11shFixed(r, rng, g, "kernel launch taken during the shootdown's CU phase",
+	// REPAIRED finding C11-cp-launch-in-shootdown: a launch request delivered during the shootdown's CU phase
+	// (witness of cps_no_fault_full_before_fix_refuted: the old code issued the kernel-start invalidation into
+	// the shootdown's counter — TLB flush and ShootdownCompleteRsp before the CUs, translators and caches were
+	// flushed, then a nil dereference). Now the launch waits until the ShootdownCompleteRsp is out, then the
+	// invalidation is issued and the kernel starts
+	c11shFixed(r, rng, g, "kernel launch delivered during the shootdown's CU phase",
 		[]string{"s", "t", "k", "t", "q", "xc 9", "a 0", "a 0", "t", "q", "t", "q", "xl 9", "al 0", "t", "q", "xu 9", "au 0", "t", "xa 9", "aa 0", "t", "q",
-			"xc 9", "a 0", "a 0", "a 0", "a 0", "t", "t", "t", "t"})
+			"xc 9", "a 0", "a 0", "a 0", "a 0", "t", "t", "t", "t", "q", "xl 9", "al 0", "t", "q", "xr 9", "t", "xc 9", "a 1", "a 0", "t", "t", "q"})
 	// serialised versions of the same requests: everything is answered
 	c11shFixed(r, rng, g, "shootdown, then flush and copies", []string{"s", "h", "t", "xu 1", "au 0", "t", "xa 1", "aa 0", "t", "q",
 		"xc 4", "a 3", "a 0", "a 1", "a 0", "T 4", "q", "xl 1", "al 0", "t", "xr 2", "f", "d", "t", "q"})
